@@ -56,7 +56,11 @@ var findings = []kit.Finding[Case]{
 		ID: kfRace, Clause: "C07.I3",
 		Desc: "the process-wide note/numbering registries are unsynchronised maps: goroutines adding notes or list items to distinct documents race (race detector report; fatal error: concurrent map writes)",
 		Trigger: func(c Case, f kit.Failure) bool {
-			return sharedManager(c) && (strings.Contains(f.Detail, "concurrent map") || strings.Contains(f.Detail, "Footnote") || strings.Contains(f.Detail, "ootnote") || strings.Contains(f.Detail, "umbering"))
+			if !sharedManager(c) {
+				return false // fewer than two documents go through the same registry object
+			}
+			// the report must point into the registry code, a race elsewhere is not this finding
+			return strings.Contains(f.Detail, "concurrent map") || strings.Contains(f.Detail, "footnotes.go") || strings.Contains(f.Detail, "numbering.go")
 		},
 	},
 }
